@@ -3,6 +3,8 @@ import math
 
 DAYS_PER_MONTH = [31, 28, 31, 30, 31, 30, 31, 31, 30, 31, 30, 31]
 DAYS_EPOCH = 25569
+MIN_DAYS = -693593  # 0001-01-01
+MAX_DAYS = 2958465  # 9999-12-31
 
 
 def is_leap_year(year):
@@ -37,6 +39,9 @@ def to_date(oadate):
     # split into whole days and milliseconds of the day; rounding (instead
     # of truncating every unit in turn) keeps whole seconds whole
     days = math.floor(oadate)
+    if days < MIN_DAYS or days > MAX_DAYS:
+        # outside the years 1 to 9999 (and no year-by-year walk towards it)
+        raise ValueError(f"day number {days} is out of range")
     millis = round((oadate - days) * 24 * 60 * 60 * 1000)
     if millis >= 24 * 60 * 60 * 1000:
         days += 1
